@@ -54,6 +54,7 @@ class LineDriver:
         if r in ("hang", "crash"):
             if r == "hang":
                 self.hangs += 1
+                self.stderr_tail = ""
             else:
                 self.crashes += 1
                 try:
